@@ -15,7 +15,7 @@ import (
 // faults and Close at any moment.
 
 func init() {
-	Register(&World{Name: "parmap", Props: []string{"C14"}, Concurrent: true, Timed: true, MaxSteps: 12000, Run: parmapWorld})
+	Register(&World{Name: "parmap", Episodes: true, Props: []string{"C14"}, Concurrent: true, Timed: true, MaxSteps: 12000, Run: parmapWorld})
 	ExpectedProbes["parmap"] = []string{"iterator-variant", "stream-variant", "out-of-order-completion", "in-flight-at-bound", "close-midway", "f-error", "source-error", "next-ctx-expired-then-retried", "buffer-smaller-than-parallelism"}
 }
 
